@@ -103,6 +103,10 @@ def build(thorough):
     km = 4 if thorough else 3
     for f in ('helper_remove_token_and_space', 'helper_insert', 'helper_replace', 'helper_partition'):
         obs.append(Ob(f'{f}[children<={km}]', HE, f, T, env=dict(VH_KIDSMAX=km)))
+    # ---- record-level edits of a parsed control stream (duplicate identical records included)
+    for i in range(6):
+        obs.append(Ob(f'stream_edit[first={i}]', 'C03_stream.py', 'stream_edit', T, env=dict(VH_I1=i)))
+    obs.append(Ob('stream_edit__twin', 'C03_stream.py', 'stream_edit__twin', 150, kind='twin', env={}))
     # ---- twins
     for p in (ALL_PARSERS if thorough else QUICK_PARSERS):
         obs.append(Ob(f'roundtrip__twin[{p}]', HP, 'roundtrip__twin', 150, kind='twin',
